@@ -244,7 +244,7 @@ def gcstress(ctx):
             res["gcstress_ops"] = res.get("gcstress_ops", 0) + js.get("ops", 0)
             res["gcstress_equalities_checked"] = res.get("gcstress_equalities_checked", 0) + js.get("equalities_checked", 0)
             res.setdefault("gcstress_samples", js.get("samples", [])[:4])
-    res["gcstress_rule"] = ("harness_checkptr gcstress <seed> <nkeys> with GOGC=1: value types *T, string, []byte, struct{}, [25]uint64 x key kinds alpha string, alpha []byte, "
+    res["gcstress_rule"] = ("harness_checkptr gcstress <seed> <nkeys> with GOGC=1: value types *T, string, []byte, struct{}, [25]uint64 (and, for uint64, alpha []byte and collation keys, values whose pointers sit inside a composite: [2]*T, [2]string, struct{[1]*T;int;[2]string}, any, map[string]*T, *[]string, [1][]byte) x key kinds alpha string, alpha []byte, "
                             "uint64, int16, float64, collation string:de, compound; fill / delete a third / overwrite a third / re-insert with a forced collection every 5 "
                             "operations and inside iterations, then Search of every key and All/Backward/Range(min,max)/Minimum/Maximum compared with an independently "
                             "built reference map by reflect.DeepEqual")
